@@ -43,6 +43,7 @@ enum {
     CF_OPEN,              /* 1 (default): call htp_connp_open before feeding */
     CF_DUMP,              /* bitmask HX_DUMP_* */
     CF_MEM_SAMPLES,       /* >0: sample live library heap bytes at call boundaries, keep every n-th sample */
+    CF_STRICT_RAW,        /* well-formed input: raw *_HEADER_DATA / *_TRAILER_DATA must not follow their side's COMPLETE callback */
     CF__N = 40
 };
 
@@ -158,7 +159,7 @@ void hx_result_free(hx_result *r);
 int hx_run(const hx_case *c, hx_result *r);
 
 /* ---- batch files ---- */
-typedef struct { uint8_t *mem; size_t len; size_t ncases; hx_case *cases; } hx_batch;
+typedef struct { uint8_t *mem; size_t len; size_t maplen; size_t ncases; hx_case *cases; } hx_batch;
 int hx_batch_load(const char *path, hx_batch *b);
 void hx_batch_free(hx_batch *b);
 int hx_case_write(FILE *f, const hx_case *c);          /* appends one case (writes magic if file empty) */
